@@ -34,8 +34,11 @@ TcpBased == tp \in {"tcp", "btcp", "tls", "btls", "utls", "utlst"}
 \* tls when only a tls server listens at the address (1 = ux, 2 = tls)
 U == INSTANCE Utls WITH Clients <- {1}, UxReach <- {1}, srv <- "up", uxq <- <<>>, tlsq <- <<>>, leg <- <<"none">>, acc <- <<>>, uxerr <- FALSE
 LegNo(g) == IF g = "ux" THEN 1 ELSE IF g = "tls" THEN 2 ELSE 0
+\* scenarios in which nothing goes wrong: the peer accepts, both sides exchange their messages, one closes
+FaultFree == {"normal", "ctlflood", "garbage2", "longidle"}
+
 \* what the remote address does in each scenario (Peer of XcmEst) and the errno the documentation promises for it
-PeerOf(s) == CASE s \in {"normal", "ctlflood", "garbage2"} -> "accept" [] s = "refused" -> "refuse" [] s = "silent" -> "silent"
+PeerOf(s) == CASE s \in FaultFree -> "accept" [] s = "refused" -> "refuse" [] s = "silent" -> "silent"
                [] s = "release" -> "late" [] s = "mute" -> "mute" [] s = "garbage" -> "garbage" [] OTHER -> "none"
 Promised(peer) == CASE peer = "refuse" -> ECONNREFUSED [] peer = "silent" -> ETIMEDOUT [] peer = "garbage" -> EPROTO [] OTHER -> 0
 
@@ -58,7 +61,7 @@ StepApi(ln) ==
         Chk(~(srvc /\ ln.op # "cl" /\ ln.kp = 0 /\ ln.rd[3] = 1), "C16.spin", 0, ln.rd[3]),
         Chk(~(srvc /\ ln.op # "cl" /\ ln.kp = 1 /\ ln.rd[3] = 0), "C04.lost_wakeup", 1, ln.rd[3]),
         \* in the fault-free scenario no call ever reports a failure of the connection
-        Chk(~(scen \in {"normal", "ctlflood", "garbage2"} /\ ln.op \in {"f", "s", "r"} /\ ln.ret = -1 /\ ln.err # EAGAIN /\ ln.e = 1), "C04.progress", EAGAIN, ln.err),
+        Chk(~(scen \in FaultFree /\ ln.op \in {"f", "s", "r"} /\ ln.ret = -1 /\ ln.err # EAGAIN /\ ln.e = 1), "C04.progress", EAGAIN, ln.err),
         Chk(~(scen = "idle" /\ ln.op = "ac") \/ (ln.ret = -1 /\ ln.err = EAGAIN), "C16.accept_idle", EAGAIN, ln.err),
         Chk(ln.op # "a" \/ ln.ret = 0, "MM", 0, ln.ret),
         \* C07: garbage fed to ANOTHER connection of the process must not make a healthy connection fail or lose messages
@@ -89,13 +92,13 @@ StepQ(ln) ==
         \* C04: a run that got stuck: no descriptor became readable although the attempt could complete or fail
         Chk(ln.stk = 0, "C04.lost_wakeup", scen, <<"est", ln.est, "term", ln.term>>),
         \* normal: established on both sides, everything sent was received in order, the close was seen
-        Chk(~(scen \in {"normal", "ctlflood", "garbage2"}) \/ ln.stk = 1 \/ (ln.est = <<1, 1>> /\ ln.acc = 1), "C04.progress", <<1, 1>>, ln.est),
-        Chk(~(scen \in {"normal", "ctlflood", "garbage2"}) \/ ln.stk = 1 \/ (ln.rcvd[1] = ln.sent[2] /\ ln.rcvd[2] = ln.sent[1] /\ ln.bado = <<0, 0>>), "C01.order", ln.sent, ln.rcvd),
-        Chk(~(scen \in {"normal", "ctlflood", "garbage2"}) \/ ln.stk = 1 \/ ln.cs # 0, "C04.lost_wakeup", "close", ln.cs),
+        Chk(~(scen \in FaultFree) \/ ln.stk = 1 \/ (ln.est = <<1, 1>> /\ ln.acc = 1), "C04.progress", <<1, 1>>, ln.est),
+        Chk(~(scen \in FaultFree) \/ ln.stk = 1 \/ (ln.rcvd[1] = ln.sent[2] /\ ln.rcvd[2] = ln.sent[1] /\ ln.bado = <<0, 0>>), "C01.order", ln.sent, ln.rcvd),
+        Chk(~(scen \in FaultFree) \/ ln.stk = 1 \/ ln.cs # 0, "C04.lost_wakeup", "close", ln.cs),
         \* utls delegates to the leg spec/Utls.tla says (both ends agree)
-        Chk(~(tp = "utls" /\ scen \in {"normal", "ctlflood", "garbage2"} /\ ln.stk = 0 /\ ln.est = <<1, 1>> /\ ln.legs[2] # 0)
+        Chk(~(tp = "utls" /\ scen \in FaultFree /\ ln.stk = 0 /\ ln.est = <<1, 1>> /\ ln.legs[2] # 0)
             \/ ln.legs[2] = LegNo(U!ExpectedLeg("up", TRUE)), "C01.utls_leg", LegNo(U!ExpectedLeg("up", TRUE)), ln.legs),
-        Chk(~(tp = "utlst" /\ scen \in {"normal", "ctlflood", "garbage2"} /\ ln.stk = 0 /\ ln.est = <<1, 1>> /\ ln.legs[2] # 0)
+        Chk(~(tp = "utlst" /\ scen \in FaultFree /\ ln.stk = 0 /\ ln.est = <<1, 1>> /\ ln.legs[2] # 0)
             \/ ln.legs[2] = LegNo(U!ExpectedLeg("tlsonly", TRUE)), "C01.utls_leg", LegNo(U!ExpectedLeg("tlsonly", TRUE)), ln.legs),
         \* failure scenarios: the attempt is reported as failed, never as established
         Chk(~(peer \in {"refuse", "silent", "garbage", "mute"} /\ (peer \notin {"mute", "garbage"} \/ TlsBased)) \/ ln.est[1] = 0, "C06.established", 0, ln.est[1]),
@@ -104,9 +107,23 @@ StepQ(ln) ==
         Chk(~(peer = "garbage" /\ TlsBased /\ ln.stk = 0 /\ ln.rg = 1) \/ t1 # 0 \/ ln.eofs[1] = 1, "C06.unreported", prom, t1),
         Chk(~(peer = "garbage" /\ TlsBased /\ ln.rg = 1 /\ t1 # 0) \/ t1 = EPROTO, "NOTE.garbage_errno", prom, t1),
         Chk(~(peer = "mute" /\ TlsBased /\ ln.stk = 0 /\ ln.rcl = 1) \/ t1 # 0 \/ ln.eofs[1] = 1, "C06.unreported", "closed or errno", t1),
+        \* C01 / C03: what the late peer finds on the wire are the messages xcm_send accepted, in order, and nothing else: a send
+        \* refused while the TCP handshake was pending is never delivered later (wire = <<complete units, in order, rest>>)
+        \* (wire = <<complete units, accepted ones in order, bytes of an incomplete unit, units of a refused xcm_send>>)
+        Chk(~(scen = "release" /\ ln.wire[1] >= 0) \/ (ln.wire[4] = 0 /\ ln.wire[1] <= ln.sent[1]), IF tp = "btcp" THEN "C02.phantom" ELSE "C01.phantom", ln.sent[1], ln.wire),
+        Chk(~(scen = "release" /\ ln.wire[1] >= 0) \/ (ln.wire[4] = 0 /\ ln.wire[1] <= ln.sent[1]), "C03.failed_delivered", ln.sent[1], ln.wire),
+        Chk(~(scen = "release" /\ ln.wire[1] >= 0) \/ ln.wire[2] = 1, "C01.order", 1, ln.wire),
         \* a late answer leads to an established connection
         Chk(~(peer = "late" /\ ln.stk = 0 /\ ~TlsBased) \/ ln.est[1] = 1, "C04.progress", 1, ln.est[1])
       >>
+  IN /\ Report(ln, cs)
+     /\ nv' = nv + Len(Failed(cs))
+     /\ UNCHANGED <<tp, scen, up, srvc, terr>>
+
+\* scenario "longidle": the idle connection, looked at later than tcp.connect_timeout after xcm_connect
+StepIdle(ln) ==
+  LET cs == <<Chk(ln.spin[1] < 3, "C16.spin", <<"connecting side, ms", ln.ms>>, ln.spin),
+              Chk(ln.spin[2] < 3, "C16.spin", <<"accepted side, ms", ln.ms>>, ln.spin)>>
   IN /\ Report(ln, cs)
      /\ nv' = nv + Len(Failed(cs))
      /\ UNCHANGED <<tp, scen, up, srvc, terr>>
@@ -137,6 +154,7 @@ Next ==
        [] ln.op \in ApiOps -> StepApi(ln)
        [] ln.op = "q" -> StepQ(ln)
        [] ln.op = "bq" -> StepBq(ln)
+       [] ln.op = "id" -> StepIdle(ln)
        [] ln.op = "crash" -> PrintT(<<"@V", ln.x, ln.n, "CRASH", 0, ln.why>>) /\ nv' = nv + 1 /\ UNCHANGED <<tp, scen, up, srvc, terr>>
        [] OTHER -> UNCHANGED <<tp, scen, up, srvc, terr, nv>>
 
